@@ -1,7 +1,7 @@
 #!/bin/bash
 # extract.sh <cfg-name> <cargo feature args...>  — run mirfacts over /repo's working tree for one configuration
 set -euo pipefail
-V=/verif
+V="$(cd "$(dirname "$0")/.." && pwd)"
 cfg="$1"; shift
 REPO="${VERIF_REPO:-/repo}"
 export LD_LIBRARY_PATH="$(rustc +nightly --print sysroot)/lib"
